@@ -180,6 +180,9 @@ func BuildTruth(sc *Scenario, log *simlog.Log) *Truth {
 		case "os.fork":
 			in := &Inst{Kind: "child", Token: e.Subj, Pid: e.Pid, Ppid: e.N, ExecSeq: e.Seq, ExitSeq: -1, ReapSeq: -1, ExecT: e.T}
 			fmt.Sscanf(e.A, "pgid=%d", &in.Pgid)
+			if e.B != "" {
+				in.Token = e.B // the child's own token "<parent>/c<i>"
+			}
 			t.Insts = append(t.Insts, in)
 			t.ByPid[in.Pid] = in
 		case "os.exit":
